@@ -154,6 +154,8 @@ type World struct {
 	firedMu sync.Mutex
 	Fired   map[string]int // fault kinds that actually fired (not merely armed)
 
+	// OnBackchannel is called after every proxy->authenticator exchange completes (oracles).
+	OnBackchannel func(*Exchange)
 	// OnExchange is called after every browser-side exchange completes (oracles).
 	OnExchange func(*Exchange)
 }
